@@ -543,6 +543,24 @@ func (f *Frame) callContract(callee *ssa.Function, con *Contract, args []Val, pc
 			vc.oblige("pre", fmt.Sprintf("%s#pre:%s.%d@call%d", f.obFn(), name, i+1, cidx), pc, env.evalBool(r.E), f.pos(posOf(ins, f)), "precondition of "+name+": "+r.Src)
 		}
 	}
+	// recursion: a call of the function under verification must decrease its termination measure
+	if !f.dry && callee == f.stack[0] {
+		root := f
+		for root.parent != nil {
+			root = root.parent
+		}
+		if len(con.Decreases) > 0 && len(root.entryMeasure) == len(con.Decreases) {
+			lex := "false"
+			for i := len(con.Decreases) - 1; i >= 0; i-- {
+				m1 := vc.define("call measure", "Int", env.eval(con.Decreases[i].E).T)
+				m0 := root.entryMeasure[i]
+				lex = fmt.Sprintf("(or (and (< %s %s) (>= %s 0)) (and (= %s %s) %s))", m1, m0, m0, m1, m0, lex)
+			}
+			vc.oblige("dec", fmt.Sprintf("%s#dec:call:%s@call%d", f.obFn(), name, f.callIndex(ins)), pc, lex, f.pos(posOf(ins, f)), "recursive call: the termination measure of "+name+" decreases and is bounded below")
+		} else {
+			vc.notes = append(vc.notes, fmt.Sprintf("termination of the recursion of %s not proved (no decreases clause)", name))
+		}
+	}
 	npc := pc
 	// panics
 	if !f.dry {
